@@ -70,6 +70,8 @@ typedef struct {
     /* the routine is documented to leave partial results behind when it fails:
      * clean them up, report them as a finding and go on */
     void (*partial)(fctx_t *, const void *snap0);
+    /* scenario-specific state that a failed call must leave unchanged */
+    void (*after_fail)(fctx_t *);
 } scen_t;
 
 static fctx_t F;
@@ -909,6 +911,66 @@ static void post_user_pool(fctx_t *f)
     post_user_def(f);
     f->variant = v;
 }
+/* revive of a terminated unit into a user-defined pool (a new unit object and a
+ * unit-map entry are needed) */
+static void pre_revive_user(fctx_t *f)
+{
+    int v = f->variant;
+    f->variant = 0;
+    pre_user_def(f);
+    f->variant = v;
+    ABT_pool p;
+    VRT_ABT(ABT_pool_create((ABT_pool_user_def)f->x[0], ABT_POOL_CONFIG_NULL, &p));
+    f->x[2] = p;
+    ABT_thread t;
+    if (f->variant == 0)
+        VRT_ABT(ABT_thread_create(f->w.p1, inc_fn, &f->ran[1], ABT_THREAD_ATTR_NULL, &t));
+    else
+        VRT_ABT(ABT_task_create(f->w.p1, inc_fn, &f->ran[1], &t));
+    VRT_ABT(ABT_thread_join(t));
+    f->x[3] = t;
+}
+static int op_revive_user(fctx_t *f)
+{
+    ABT_thread t = (ABT_thread)f->x[3];
+    ABT_pool p = (ABT_pool)f->x[2];
+    return f->variant == 0 ? ABT_thread_revive(p, inc_fn, &f->ran[0], &t) : ABT_task_revive(p, inc_fn, &f->ran[0], &t);
+}
+static void after_fail_revive_user(fctx_t *f)
+{
+    ABT_thread t = (ABT_thread)f->x[3];
+    ABT_thread_state st;
+    VRT_ABT(ABT_thread_get_state(t, &st));
+    VRT_CHECK(st == ABT_THREAD_STATE_TERMINATED, FK("object-changed"),
+              "%s: the revive failed, but the unit is in state %d (it was TERMINATED)", g_label, (int)st);
+    VRT_CHECK(up_is_empty((ABT_pool)f->x[2]) == ABT_TRUE, FK("object-changed"), "%s: the revive failed, but the user pool is "
+              "not empty", g_label);
+}
+static void use_revive_user(fctx_t *f)
+{
+    ABT_thread t = (ABT_thread)f->x[3], popped = ABT_THREAD_NULL;
+    ABT_pool p = (ABT_pool)f->x[2];
+    VRT_ABT(ABT_pool_pop_thread(p, &popped));
+    VRT_CHECK(popped == t, FK("created-object"), "%s: the user pool does not hold the revived unit", g_label);
+    if (popped == t) {
+        VRT_ABT(ABT_pool_push_thread(f->w.p1, t));
+        vrt_call_begin("join of the revived unit");
+        VRT_ABT(ABT_thread_join(t));
+        vrt_call_end();
+        expect_ran(f, 1, 1);
+    }
+}
+static void post_revive_user(fctx_t *f)
+{
+    ABT_thread t = (ABT_thread)f->x[3];
+    ABT_pool p = (ABT_pool)f->x[2];
+    VRT_ABT(ABT_thread_free(&t));
+    VRT_ABT(ABT_pool_free(&p));
+    int v = f->variant;
+    f->variant = 0;
+    post_user_def(f);
+    f->variant = v;
+}
 static int op_pool_add_sched(fctx_t *f)
 {
     return ABT_pool_add_sched(f->w.p1, (ABT_sched)f->x[0]);
@@ -1229,6 +1291,8 @@ static const scen_t g_scen[] = {
     { "pool_config_set", "pool_config_set", pre_pool_config, op_pool_config_set, use_pool_config_set, post_pool_config, 0, 2 },
     { "unit_into_user_pool", "unit enters a user pool(create|push_thread|migrate request)", pre_user_pool, op_into_user_pool, use_into_user_pool,
       post_user_pool, 0, 3 },
+    { "revive_into_user_pool", "revive of a terminated unit into a user-defined pool(thread|task)", pre_revive_user,
+      op_revive_user, use_revive_user, post_revive_user, 0, 2, NULL, after_fail_revive_user },
     { "pool_add_sched", "pool_add_sched", pre_add_sched, op_pool_add_sched, use_add_sched, NULL, 0, 0 },
     { "sync_create", "sync object create(mutex|mutex_attr|cond|rwlock|eventual0|eventual24|future|barrier|xstream_barrier|timer|key|"
       "mutex_with_attr)", NULL, op_sync_create, use_sync, NULL, 0, 12 },
@@ -1306,9 +1370,11 @@ static int cycle(const scen_t *sc, int variant, int k, int *p_fired)
         snap_t s0, s1;
         world_snapshot(&f->w, &s0);
         handles_preset(f);
+        vrt_call_begin("the routine under test (with the injected failure)");
         aw_arm(k);
         rc = sc->op(f);
         calls = aw_disarm(&fired, &which);
+        vrt_call_end();
         if (fired && rc != ABT_SUCCESS) {
             vrt_count(c_clean_fail, 1);
             if (sc->partial)
@@ -1316,13 +1382,17 @@ static int cycle(const scen_t *sc, int variant, int k, int *p_fired)
             if (vrt_num_violations())
                 return calls;
             handles_check_after_failure(f);
+            if (sc->after_fail)
+                sc->after_fail(f);
             world_snapshot(&f->w, &s1);
             snap_compare(&s0, &s1);
             if (vrt_num_violations())
                 return calls;
             handles_preset(f);
             memset(f->ran, 0, sizeof(f->ran));
+            vrt_call_begin("the same routine again, without a failure");
             rc = sc->op(f);
+            vrt_call_end();
             VRT_CHECK(rc == ABT_SUCCESS, FK("retry-failed"), "%s: the same call without a fault returned %d", g_label, rc);
             if (vrt_num_violations())
                 return calls;
